@@ -272,6 +272,7 @@ func init() {
 		wireOneByteEndian(w, wc, r, "C04")
 		wireFieldOrderEmission(wc, r, "C04", map[string]bool{"enc": true})
 		sizeSumHonoursRepeat(w, r, "C04")
+		declarationKindIsModelled(w, r, "C04", map[string]bool{"LengthFieldAttribute": true})
 		wireModelFrame(w, r, "C04", frameWire, frameLength, nil, "a generator rewrites the length link / the kind of a field in the shared model: the targets generated after it lose or misplace the back-patch")
 		wireAssumptions(r)
 	})
@@ -283,6 +284,7 @@ func init() {
 		// a key maps to exactly one packet: the parse phase rejects a key that occurs twice in one table (across pairs and lists)
 		visitorKeepsNoPacketState(w, r, "C05")
 		matchKeysCheckedWhereverCollected(w, r, "C05")
+		declarationKindIsModelled(w, r, "C05", map[string]bool{"MatchFieldAttribute": true})
 		genReach := map[*ssa.Function]bool{}
 		if subs, err := c14Subjects(w); err == nil {
 			for _, f := range subs {
@@ -316,6 +318,7 @@ func init() {
 		r.floor("C06/checksum-sensitivity", 10)
 		wireCppBeName(wc, r, "C06", []string{"enc", "dec"}, 1<<kCheckSum)
 		wireRawType(w, r, "C06", "CheckSumFieldAttribute.Type")
+		declarationKindIsModelled(w, r, "C06", map[string]bool{"CheckSumFieldAttribute": true})
 		wireModelFrame(w, r, "C06", frameWire, frameCheckSum, nil, "a generator rewrites the checksum attribute / the kind of a field in the shared model: the targets generated after it no longer calculate the checksum the DSL declares")
 		wireOrder(wc, r, "C06", "enc")
 		wireOneByteEndian(w, wc, r, "C06")
